@@ -139,7 +139,7 @@ def constructible(parent: LClass, pos: str, child: LClass) -> bool:
 
 @rule(
     "PREC-GRAMMAR",
-    ["C16", "C18"],
+    ["C16", "C18", "C09"],
     "for every (parent class, operand position, child class) that can be constructed, the text "
     "skeleton emitted by the C / numba formatter handler (abstractly evaluated from its source with "
     "the precedence constants of lnodes.py) is parsed by the reference grammar of the target "
